@@ -15,11 +15,11 @@ Proof. destruct (c_phase c); reflexivity. Qed.
 
 Theorem gen_call_wb_is_finished_eq c :
   gen_call_wb_is_finished (w_mode (c_writer c)) (w_ended (c_writer c)) = w_ended (c_writer c).
-Proof. reflexivity. Qed.
+Proof. destruct (w_ended (c_writer c)), (w_mode (c_writer c)); reflexivity. Qed.
 
 Theorem gen_call_rr_is_finished_eq c :
   gen_call_rr_is_finished (c_reader c) = match c_reader c with Some _ => true | None => false end.
-Proof. reflexivity. Qed.
+Proof. destruct (c_reader c); reflexivity. Qed.
 
 (** The conversion to the receiving call is refused exactly while the body writer has not ended: the model's [into_receive]. *)
 Theorem gen_do_into_receive_eq c :
